@@ -51,6 +51,13 @@ PROPS = {
         gen_obligations=["Gen.HeaderLength","Gen.MessageBufferLength"],
         trusted=CODEC_TRUST + ["Model.Stream hand-written from message.go readHeader/readBody and io.ReadFull's contract"],
     ),
+    "C07": dict(
+        domains=[("retry", "write", 6000, 100000), ("retry", "exhaustive", 900, 900), ("conn", "cwrite", 150, 1500)],
+        relevant=["C07:"],
+        theorems=["DV.Props.C07."+t for t in ["C07_retry","C07_retry_stops","C07_whole","C07_exclusive","C07_once_ordered","C07_quiescent","C07_gen"]],
+        gen_obligations=["Gen.responseWriteLocked","Gen.MessageBufferLength"],
+        trusted=["Model.Retry hand-written from message.go writeRetry/writeStreamRetry; Model.Writers: LTS of response.Write (server.go)"],
+    ),
     "C16": dict(
         domains=[("codec", "answer", 6000, 100000)],
         relevant=["C16:"],
